@@ -749,6 +749,44 @@ class PassShape:
         return res
 
 
+def ctor_field_value(prog, call: ast.AST, attr: str):
+    """value given for field `attr` in a constructor call of a package class written as a dataclass / plain annotated class
+    (keyword, or positional by the order of the annotated fields); None when the call is not such a constructor call"""
+    if not (isinstance(call, ast.Call) and isinstance(call.func, ast.Name)):
+        return None
+    ci = prog.classes.get(call.func.id)
+    if ci is None:
+        return None
+    for k in call.keywords:
+        if k.arg == attr:
+            return k.value
+    fields_ = [st.target.id for st in ci.node.body if isinstance(st, ast.AnnAssign) and isinstance(st.target, ast.Name)]
+    init = ci.methods.get('__init__')
+    if init is not None:
+        fields_ = [p_ for p_ in init.params[1:]]
+    if attr in fields_ and fields_.index(attr) < len(call.args):
+        return call.args[fields_.index(attr)]
+    return None
+
+
+def pass_state_arg(prog, ps, call: ast.Call, ex, path: str):
+    """the expression calc hands to the pass for the state named by `path`: a parameter of the pass (`calculated`) or a field of a
+    per-call parameter object (`run.scheduled_ids`, the object built in calc by a constructor call); None when not resolvable"""
+    params = ps.f.params
+    if path in params:
+        i = params.index(path) - 1
+        return ex.expand(call.args[i]) if len(call.args) > i else None
+    if '.' in path:
+        base, attr = path.split('.', 1)
+        if base in params and '.' not in attr:
+            i = params.index(base) - 1
+            if len(call.args) > i:
+                obj = ex.expand(call.args[i])
+                v = ctor_field_value(prog, obj, attr)
+                return ex.expand(v) if v is not None and isinstance(v, ast.Name) else v
+    return None
+
+
 def memo_is_local(ctx, o, S):
     """the memo of the recursive pass is a container allocated by calc for this call, handed down as an argument"""
     ps = PassShape(ctx, S)
@@ -765,13 +803,12 @@ def memo_is_local(ctx, o, S):
                  f"scheduler skips every task id it has seen - those tasks and their summaries get no dates and no roll-ups")
         return
     ex = Expander(ctx.prog, calc, ctx.typer, inline=False)
-    idx = ps.f.params.index(ps.memo) - 1 if ps.memo in ps.f.params else None
     calls = [c for c in facts.calls_named(calc, ps.pname)]
-    if idx is None or not calls:
+    if not calls or all(pass_state_arg(ctx.prog, ps, c, ex, ps.memo) is None for c in calls):
         o.undecided(calc, calc.node, 'memo', "memo argument not found at the call of the pass")
         return
     for c in calls:
-        a = ex.expand(c.args[idx]) if len(c.args) > idx else None
+        a = pass_state_arg(ctx.prog, ps, c, ex, ps.memo)
         if a is not None and (match("[]", a) or match("list()", a) or match("set()", a)):
             o.site(calc, c, "memo allocated by this calc call")
         else:
